@@ -2,7 +2,12 @@
      isused <fuel> <sym> r <root> <root> .. e <sym>:<u>,<u>,.. ..
         -> "1" | "0" | "fuel"      (Symbol:is_used on the graph: roots, usedby lists)
      pair <name> <type> <a> <b>      name: idiv imod ; -> "<checked outcome> <unchecked outcome>"
-     bounds <type> <index> <len>     -> "<checked> <unchecked>"                                  *)
+     bounds <type> <index> <len>     -> "<checked> <unchecked>"
+     narrow <src type> <dst type> <x> -> "<checked> <unchecked>"
+     vd <slot> ..                    slot = (u|d)(N | C<e> | P<e> | R<k>:<e>)  (used/dropped; no value, compile-time
+                                     value, run-time value, k-th result of the trailing call)
+        -> "wf=<0|1> dce=<e,e,..> nodce=<..> src=<..>"   (order of the effects, scraped emitter placement)
+     cflags <gcc|clang> <default|release|nochecks|nodce>  -> "nochecks=<0|1> <flag code> .."          *)
 open Model
 open Zutil
 
@@ -47,6 +52,33 @@ let () =
              let t = ity_of (List.nth args 0) in
              let i = z_of_hex (List.nth args 1) and l = z_of_hex (List.nth args 2) in
              out_s (h_bounds t true i l) ^ " " ^ out_s (h_bounds t false i l)
+           | "narrow" ->
+             let st = ity_of (List.nth args 0) and dt = ity_of (List.nth args 1) in
+             let x = z_of_hex (List.nth args 2) in
+             out_s (h_narrow_int st dt true x) ^ " " ^ out_s (h_narrow_int st dt false x)
+           | "vd" ->
+             let slot a =
+               let used = (a.[0] = 'u') in
+               let rest = String.sub a 2 (String.length a - 2) in
+               let src = (match a.[1] with
+                 | 'N' -> VNone
+                 | 'C' -> VPlain (nat rest, false)
+                 | 'P' -> VPlain (nat rest, true)
+                 | 'R' -> (match String.split_on_char ':' rest with
+                           | [ k; e ] -> VRet (nat k, nat e) | _ -> failwith "slot")
+                 | _ -> failwith "slot") in
+               { s_used = used; s_src = src } in
+             let l = List.map slot args in
+             let show x = String.concat "," (List.map (fun n -> string_of_int (int_of_nat n)) x) in
+             Printf.sprintf "wf=%d dce=%s nodce=%s src=%s" (if vd_wf l then 1 else 0)
+               (show (vd_effects vardecl_policy false l)) (show (vd_effects vardecl_policy true l)) (show (src_effects l))
+           | "cflags" ->
+             let gcc = (List.nth args 0 = "gcc") in
+             let c = (match List.nth args 1 with
+               | "default" -> CDefault | "release" -> CRelease | "nochecks" -> CNochecks | "nodce" -> CNodce
+               | s -> failwith s) in
+             Printf.sprintf "nochecks=%d %s" (if nochecks_of c then 1 else 0)
+               (String.concat " " (List.map (fun n -> string_of_int (int_of_nat n)) (cflags_of gcc c)))
            | _ -> "?unknown")
         with e -> "!exn " ^ Printexc.to_string e
       in
